@@ -22,7 +22,7 @@ BREAK = [
     ("qg-factor", ["C03", "C04"], "PEPit/functions/convex_qg_function.py", "1 / (2 * self.L) * gj ** 2", "1 / self.L * gj ** 2", "R-FORMULA"),
     ("cocoercive-beta2", ["C03", "C04"], "PEPit/operators/cocoercive.py", "- self.beta * (gi - gj) ** 2 >= 0", "- 2 * self.beta * (gi - gj) ** 2 >= 0", "R-FORMULA"),
     ("lipschitz-sense", ["C03", "C04"], "PEPit/operators/lipschitz.py", "(xi - xj) ** 2 <= 0", "(xi - xj) ** 2 >= 0", "R-FORMULA"),
-    ("linear-T2-entry", ["C03", "C04"], "PEPit/operators/linear.py", "T2[i, j] = self.L ** 2 * ui * uj - vi * vj", "T2[i, j] = self.L ** 2 * ui * uj - vi * uj", "R-FORMULA"),
+    ("linear-T2-entry", ["C03", "C04"], "PEPit/operators/linear.py", "T2[i, j] = (self.L ** 2) * ui * uj - vi * vj", "T2[i, j] = (self.L ** 2) * ui * uj - vi * uj", "R-FORMULA"),
     ("support-operand", ["C03", "C04"], "PEPit/functions/convex_support_function.py", "constraint = (xj * (gi - gj) <= 0)", "constraint = (xi * (gi - gj) <= 0)", "R-FORMULA"),
     ("indicator-value", ["C03", "C04"], "PEPit/functions/convex_indicator.py", "constraint = (fi == 0)", "constraint = (fi <= 0)", "R-FORMULA"),
     ("strongly-convex-relax", ["C04"], "PEPit/functions/strongly_convex_function.py", "self.mu / 2 * (xi - xj) ** 2", "self.mu / 4 * (xi - xj) ** 2", "R-FORMULA"),
@@ -61,21 +61,21 @@ BREAK = [
     # ---- declared model (C05)
     ("drop-function-psd-filter", ["C05"], P, "if len(function.list_of_constraints) > 0 or len(function.list_of_psd) > 0]", "if len(function.list_of_constraints) > 0]", "R-DRAIN"),
     ("initial-conditions-slice", ["C05"], P, "        for condition in self.list_of_constraints:\n            wrapper.send_constraint_to_solver(condition)", "        for condition in self.list_of_constraints[1:]:\n            wrapper.send_constraint_to_solver(condition)", "R-DRAIN"),
-    ("cvxpy-equality-as-inequality", ["C05", "C11"], CV, "cvxpy_constraint = (self._expression_to_solver(constraint.expression) == 0)", "cvxpy_constraint = (self._expression_to_solver(constraint.expression) <= 0)", "R-SENSE"),
+    ("cvxpy-equality-as-inequality", ["C05", "C11"], CV, "cvxpy_constraint = self._expression_to_solver(constraint.expression) == 0", "cvxpy_constraint = self._expression_to_solver(constraint.expression) <= 0", "R-SENSE"),
     ("ge-not-flipped", ["C05", "C06"], EX, "        return -self <= -other", "        return self <= other", None),
     ("dense-half-weight", ["C05"], TR, "                Gweights[point1.counter, point2.counter] = weight\n", "                Gweights[point1.counter, point2.counter] = weight / 2\n", "R-TRANSL"),
     ("sparse-no-halving", ["C05", "C11"], TR, "                    Gweights_val.append((weight + weight_sym) / 2)\n                    Gweights_indi.append(max(point1.counter, point2.counter))", "                    Gweights_val.append(weight + weight_sym)\n                    Gweights_indi.append(max(point1.counter, point2.counter))", "R-TRANSL"),
     ("sparse-upper-triangle", ["C05", "C11"], TR, "Gweights_indi.append(max(point1.counter, point2.counter))\n                    Gweights_indj.append(min(point1.counter, point2.counter))", "Gweights_indi.append(min(point1.counter, point2.counter))\n                    Gweights_indj.append(max(point1.counter, point2.counter))", "R-TRANSL"),
     ("mosek-inequality-bound-sign", ["C05", "C11"], MK, "self.task.putconbound(nb_cons, mosek.boundkey.up, -inf, -alpha_val)", "self.task.putconbound(nb_cons, mosek.boundkey.up, -inf, alpha_val)", "R-SENSE"),
-    ("mosek-coupling-offdiag", ["C05", "C11"], MK, "[-.5 * (i != j) - 1 * (i == j)]", "[-1 * (i != j) - 1 * (i == j)]", "R-LMIENC"),
+    ("mosek-coupling-offdiag", ["C05", "C11"], MK, "-.5 * (i != j) - 1 * (i == j)", "-1 * (i != j) - 1 * (i == j)", "R-LMIENC"),
     ("cvxpy-minimize", ["C05", "C11"], CV, "self.prob = cp.Problem(objective=cp.Maximize(cvxpy_objective)", "self.prob = cp.Problem(objective=cp.Minimize(cvxpy_objective)", "R-OBJSENSE"),
     # ---- algebra (C06)
     ("merge-aliases-operand", ["C06"], DO, "merged_dict = dict1.copy()", "merged_dict = dict1", "R-"),
     ("prune-positive-only", ["C06"], DO, "if my_dict[key] != 0:", "if my_dict[key] > 0:", "R-DICTOPS"),
-    ("rsub-sign", ["C06"], EX, "        return -self.__sub__(other=other)", "        return self.__sub__(other=other)", "R-OPSEM"),
+    ("rsub-sign", ["C06"], EX, "        return - self.__sub__(other=other)", "        return self.__sub__(other=other)", "R-OPSEM"),
     ("point-add-accepts-anything", ["C06"], PT, "        # Verify that other is a Point\n        assert isinstance(other, Point)\n", "", "R-OPSEM"),
     ("operator-creates-leaf", ["C06"], PT, "            return Point(is_leaf=False, decomposition_dict=new_decomposition_dict)", "            return Point(is_leaf=True, decomposition_dict=None)", "R-"),
-    ("symmetrize-no-half", ["C06", "C01"], DO, "final_dict = {key: value / 2 for key, value in symmetric_dict.items()}", "final_dict = {key: value for key, value in symmetric_dict.items()}", "R-DICTOPS"),
+    ("symmetrize-no-half", ["C06", "C01"], DO, "final_dict = {key: value/2 for key, value in symmetric_dict.items()}", "final_dict = {key: value for key, value in symmetric_dict.items()}", "R-DICTOPS"),
     # ---- oracle (C07)
     ("oracle-ignores-flag", ["C07"], F, "        if associated_grad_and_function_val and self.reuse_gradient:\n            return associated_grad_and_function_val", "        if associated_grad_and_function_val:\n            return associated_grad_and_function_val", "R-ONEVALUE"),
     ("sum-flag-or", ["C07"], F, "reuse_gradient=self.reuse_gradient and other.reuse_gradient)", "reuse_gradient=self.reuse_gradient or other.reuse_gradient)", "R-FLAG"),
@@ -86,7 +86,7 @@ BREAK = [
     ("prox-sign", ["C08"], "PEPit/primitive_steps/proximal_step.py", "x = x0 - gamma * gx", "x = x0 + gamma * gx", "R-STEP"),
     ("linesearch-drop-orthogonality", ["C08"], "PEPit/primitive_steps/exact_linesearch_step.py", "    constraint = ((x - x0) * gx == 0)", "    constraint = ((x - x0) * gx <= 0)", "R-STEP"),
     ("bregman-wrong-function", ["C08"], "PEPit/primitive_steps/bregman_proximal_step.py", "    min_function.add_point((x, gx, fx))", "    mirror_map.add_point((x, gx, fx))", "R-STEP"),
-    ("linear-opt-sign", ["C08"], "PEPit/primitive_steps/linear_optimization_step.py", "    gx = -dir", "    gx = dir", "R-STEP"),
+    ("linear-opt-sign", ["C08"], "PEPit/primitive_steps/linear_optimization_step.py", "    gx = - dir", "    gx = dir", "R-STEP"),
     ("inexact-relative-eps", ["C08"], "PEPit/primitive_steps/inexact_gradient_step.py", "epsilon ** 2 * (gx0 ** 2) <= 0", "epsilon * (gx0 ** 2) <= 0", "R-STEP"),
     # ---- back-ends (C11)
     ("mosek-untracked-index", ["C11"], MK, "        if track:\n            self._constraint_index_in_mosek.append(nb_cons)", "        self._constraint_index_in_mosek.append(nb_cons)", "R-ROWIDX"),
@@ -132,7 +132,7 @@ BREAK = [
 # behaviour-preserving edits: (id, file, old, new) -- every check must stay silent
 BENIGN = [
     ("convex-expanded", "PEPit/functions/convex_function.py", "constraint = (fi - fj >= gj * (xi - xj))", "constraint = (fi >= fj + gj * xi - gj * xj)"),
-    ("strongly-convex-moved", "PEPit/functions/strongly_convex_function.py", "constraint = (fi - fj >= gj * (xi - xj) + self.mu / 2 * (xi - xj) ** 2)", "constraint = (fj + gj * (xi - xj) + self.mu * (xi - xj) ** 2 / 2 <= fi)"),
+    ("strongly-convex-rescaled", "PEPit/functions/strongly_convex_function.py", "self.mu / 2 * (xi - xj) ** 2", "(xi - xj) ** 2 * self.mu * 0.5"),
     ("monotone-times-two", "PEPit/operators/monotone.py", "constraint = ((gi - gj) * (xi - xj) >= 0)", "constraint = (2 * (gi - gj) * (xi - xj) >= 0)"),
     ("lipschitz-operands-swapped", "PEPit/operators/lipschitz.py", "(gi - gj) ** 2 - self.L ** 2 * (xi - xj) ** 2 <= 0", "(gj - gi) ** 2 - (self.L * (xj - xi)) * (self.L * (xj - xi)) <= 0"),
     ("generator-renamed-locals", F, "            xi, gi, fi = point_i\n            xi_id = xi.get_name()\n            if xi_id is None:\n                xi_id = \"Point_{}\".format(i)\n\n            # Initialize row of constraints",
@@ -145,7 +145,7 @@ BENIGN = [
     ("inexact-abs-rewritten", "PEPit/primitive_steps/inexact_gradient_step.py", "constraint = ((gx0 - dx0) ** 2 - epsilon ** 2 <= 0)", "constraint = ((dx0 - gx0) ** 2 <= epsilon * epsilon)"),
     ("ortho-other-triangle", BP, "                for k in range(self.d):\n                    for l in range(k):", "                for k in range(self.d):\n                    for l in range(k + 1, self.d):"),
     ("blocks-membership-form", BP, "if point not in self.blocks_dict.keys():", "if point not in self.blocks_dict:"),
-    ("message-changed", EX, '"The PEP must be solved to evaluate Expressions!"', '"Solve the PEP before evaluating Expressions!"'),
+    ("message-changed", PT, 'raise ValueError("The PEP must be solved to evaluate Points!")', 'raise ValueError("Solve the PEP before evaluating Points!")'),
     ("verbose-message", P, "print('(PEPit) Compiling SDP')", "print('(PEPit) Compiling the SDP')"),
     ("skip-halving-ge", F, "if point_i is point_j or (i > j and symmetry):", "if point_i is point_j or (i >= j and symmetry):"),
     ("cursor-renamed", CV, "                counter += size\n", "                counter = counter + size\n"),
